@@ -189,7 +189,8 @@ class Reader:
         self.close()
 
     def __getitem__(self, item):
-        if isinstance(item, int) or isinstance(item, slice):
+        if not isinstance(item, tuple):
+            # a single selector (integer, slice, list or array of sample indices) selects samples, as for an array
             return self.read(nsel=item, sync=False)
         elif len(item) == 2:
             return self.read(nsel=item[0], csel=item[1], sync=False)
